@@ -9,7 +9,7 @@
 //! that does not return is reported as `!hang` and the worker is abandoned).
 use any_spawner::{CustomExecutor, Executor, PinnedFuture, PinnedLocalFuture};
 use reactive_graph::{
-    computed::{ArcMemo, Memo},
+    computed::{ArcMemo, Memo, Selector},
     effect::{Effect, ImmediateEffect, RenderEffect},
     graph::untrack,
     owner::{LocalStorage, Owner, SyncStorage},
@@ -47,6 +47,7 @@ enum Expr {
     Lt(Box<Expr>, Box<Expr>),
     Ite(Box<Expr>, Box<Expr>, Box<Expr>),
     Wr(usize, Box<Expr>),
+    Sel(usize, usize), // selector node, index of the key in its trigger list
 }
 
 fn parse_expr(s: &Sexp) -> Expr {
@@ -60,6 +61,7 @@ fn parse_expr(s: &Sexp) -> Expr {
         5 => Expr::Lt(b(1), b(2)),
         6 => Expr::Ite(b(1), b(2), b(3)),
         7 => Expr::Wr(s.at(1).num() as usize, b(2)),
+        8 => Expr::Sel(s.at(1).num() as usize, s.at(2).num() as usize),
         _ => Expr::Const(0),
     }
 }
@@ -86,6 +88,12 @@ enum Handle {
     #[allow(deprecated)]
     Maybe(MaybeSignal<i64>, Option<usize>),   // MaybeSignal::from(..) / Static
     Effect, // not readable
+    // a Selector occupies several nodes of the case: its value cell and the cell of the previous
+    // value (locals of the real closure: no object of their own), one node per key (the
+    // ArcRwSignal<bool> the selector keeps in its key map) and the selector itself
+    SelCell,
+    SelKey(i64),
+    Sel(Selector<i64>, Vec<usize>),
 }
 
 fn wrapped_of(h: &Handle) -> Option<usize> {
@@ -318,6 +326,9 @@ fn read_node(hs: &[Handle], j: usize, tracked_read: bool) -> i64 {
             }
         }
         Handle::Effect => panic!("case reads an effect node"),
+        Handle::SelCell | Handle::SelKey(_) | Handle::Sel(..) => {
+            panic!("case reads a node of a selector directly")
+        }
     };
     let t = tracked_read && tracked_ctx();
     if let Some(k) = wrapped_of(&hs[j]) {
@@ -389,6 +400,25 @@ fn eval(e: &Expr, hs: &[Handle]) -> i64 {
             write_node(hs, *s, v);
             v
         }
+        Expr::Sel(e, j) => match &hs[*e] {
+            Handle::Sel(sel, ts) => {
+                let t = ts[*j];
+                let key = match &hs[t] {
+                    Handle::SelKey(k) => *k,
+                    _ => panic!("case: trigger node of a selector expected"),
+                };
+                let _zone = if !tracked_ctx() {
+                    Some(reactive_graph::diagnostics::SpecialNonReactiveZone::enter())
+                } else {
+                    None
+                };
+                // read.track() on the key's signal, then f(key, v)
+                let r = sel.selected(&key);
+                ev(2, vec![reader(), t as i64, 0, tracked_ctx() as i64]);
+                r as i64
+            }
+            _ => panic!("case: selected() on a node that is not a selector"),
+        },
     }
 }
 
@@ -438,6 +468,10 @@ struct Exec {
     tasks: Vec<Task>,
     queue: Arc<Mutex<VecDeque<usize>>>,
     label: i64,
+    // labels of the internal effects of selectors: a Selector notifies its keys in FxHashMap
+    // order; the tasks woken during one poll of such an effect are queued in label order
+    // (the model does the same: Effects.canon_wakes)
+    canon: Vec<i64>,
 }
 thread_local! {
     static EXEC: RefCell<Exec> = RefCell::new(Exec::default());
@@ -482,6 +516,7 @@ fn exec_poll_nth(k: usize) -> Option<i64> {
         Some((id, t.label, t.fut.take(), t.waker.clone()))
     })?;
     ev(8, vec![label]);
+    let n0 = exec_ready_len();
     if let Some(mut fut) = fut {
         let w = Waker::from(waker);
         let mut cx = Context::from_waker(&w);
@@ -490,6 +525,16 @@ fn exec_poll_nth(k: usize) -> Option<i64> {
             Poll::Pending => EXEC.with(|e| e.borrow_mut().tasks[id].fut = Some(fut)),
         }
     }
+    EXEC.with(|e| {
+        let e = e.borrow();
+        if e.canon.contains(&label) {
+            let mut q = e.queue.lock().unwrap();
+            let cut = n0.min(q.len());
+            let mut tail: Vec<usize> = q.drain(cut..).collect();
+            tail.sort_by_key(|t| e.tasks[*t].label);
+            q.extend(tail);
+        }
+    });
     Some(label)
 }
 fn exec_reset() {
@@ -507,6 +552,20 @@ enum EffHandle {
 struct EffRec {
     owner: Owner,
     handle: EffHandle,
+    parent: Option<usize>,
+}
+
+/// the effects created under the owner of `o` or below, children first (the order in which
+/// Owner::cleanup reaches them), `o` last
+fn postorder(effs: &[Option<EffRec>], o: usize, out: &mut Vec<usize>) {
+    for (c, r) in effs.iter().enumerate() {
+        if let Some(r) = r {
+            if r.parent == Some(o) && c != o {
+                postorder(effs, c, out);
+            }
+        }
+    }
+    out.push(o);
 }
 
 const RUN_LIMIT: usize = 64;
@@ -542,6 +601,8 @@ fn run_case(c: &Sexp, mask: u8) -> Sexp {
                     }
                     2 => Handle::Rw(RwSignal::new(init)),
                     3 => Handle::Trig(Arc::new(AtomicI64::new(init)), ArcTrigger::new()),
+                    5 => Handle::SelCell,
+                    6 => Handle::SelKey(init),
                     _ => {
                         let (r, w) = arc_signal(init);
                         Handle::ArcPair(r, w)
@@ -561,6 +622,27 @@ fn run_case(c: &Sexp, mask: u8) -> Sexp {
                     (_, 2) => Handle::Memo(Memo::new_with_compare(f, parity_changed)),
                     (_, _) => Handle::Memo(Memo::new_with_compare(f, |_, _| true)),
                 }
+            }
+            4 => {
+                // (4 cmp src V P (T ...)): a Selector over the closure src; its internal
+                // RenderEffect runs src now and spawns its task
+                let e = parse_expr(nd.at(2));
+                let ts: Vec<usize> = nd.at(5).list().iter().map(|t| t.num() as usize).collect();
+                EXEC.with(|x| {
+                    let mut x = x.borrow_mut();
+                    x.label = i as i64;
+                    x.canon.push(i as i64);
+                });
+                let src = move || run_body(i, &e, &lower);
+                let sel = match nd.at(1).num() {
+                    0 => Selector::new(src),
+                    1 => Selector::new_with_fn(src, |k: &i64, v: &i64| k == v),
+                    2 => Selector::new_with_fn(src, |k: &i64, v: &i64| {
+                        k.div_euclid(10) == v.div_euclid(10)
+                    }),
+                    _ => Selector::new_with_fn(src, |k: &i64, v: &i64| v >= k),
+                };
+                Handle::Sel(sel, ts)
             }
             2 if nd.at(1).num() >= 3 => {
                 // wrappers: the body is (1 j) (wrap node j) or (0 z) (a stored constant)
@@ -601,7 +683,17 @@ fn run_case(c: &Sexp, mask: u8) -> Sexp {
                 let kind = nd.at(1).num();
                 let e = parse_expr(nd.at(2));
                 let hd = parse_expr(nd.at(3));
-                let owner = root.child();
+                // the owner tree: the fifth field names the effect under whose owner this
+                // effect's owner is created (absent / -1: under the root)
+                let parent = if nd.list().len() > 4 && nd.at(4).num() >= 0 {
+                    Some(nd.at(4).num() as usize)
+                } else {
+                    None
+                };
+                let owner = match parent.and_then(|q| effs.get(q)).and_then(|r: &Option<EffRec>| r.as_ref()) {
+                    Some(r) => r.owner.child(),
+                    None => root.child(),
+                };
                 EXEC.with(|x| x.borrow_mut().label = i as i64);
                 let l2 = lower.clone();
                 let handle = owner.with(|| match kind {
@@ -623,7 +715,7 @@ fn run_case(c: &Sexp, mask: u8) -> Sexp {
                         run_body(i, &e, &lower);
                     }))),
                 });
-                eff = Some(EffRec { owner, handle });
+                eff = Some(EffRec { owner, handle, parent });
                 Handle::Effect
             }
         };
@@ -692,11 +784,22 @@ fn run_case(c: &Sexp, mask: u8) -> Sexp {
                 }
             }
             7 => {
-                if let Some(Some(r)) = effs.get_mut(a as usize) {
-                    match &mut r.handle {
-                        EffHandle::Eff(_) | EffHandle::Iso(_) => r.owner.cleanup(),
-                        EffHandle::Render(h) => drop(h.take()),
-                        EffHandle::Imm(h) => drop(h.take()),
+                // the handles of the RenderEffects / ImmediateEffects of the subtree are dropped
+                // (they live in their handle, not in the arena), then the owner is cleaned up
+                if let Some(Some(_)) = effs.get(a as usize) {
+                    let mut po = vec![];
+                    postorder(&effs, a as usize, &mut po);
+                    for d in po {
+                        if let Some(Some(r)) = effs.get_mut(d) {
+                            match &mut r.handle {
+                                EffHandle::Render(h) => drop(h.take()),
+                                EffHandle::Imm(h) => drop(h.take()),
+                                _ => {}
+                            }
+                        }
+                    }
+                    if let Some(Some(r)) = effs.get(a as usize) {
+                        r.owner.cleanup();
                     }
                 }
             }
